@@ -5,6 +5,7 @@ mod backends;
 mod engine;
 mod faults;
 mod gen;
+mod mt;
 mod obs;
 mod refmodel;
 mod rng;
@@ -268,6 +269,14 @@ fn main() {
                 prog(case, "c02cache");
                 let res = routes::c02_cache_case(seed, case);
                 let nt = res.feat("variant") <= 1;
+                em.case(case, &res, nt);
+            }
+        }
+        "c08mt" => {
+            for case in from..to {
+                prog(case, "c08mt");
+                let res = mt::c08mt_case(seed, case, thorough);
+                let nt = res.feat("overlapped") >= 4;
                 em.case(case, &res, nt);
             }
         }
